@@ -29,6 +29,9 @@ def run(ctx):
                    "records leave only by rotation from the front — otherwise decode_pn accepts a duplicate of a packet still inside the window")
     ctx.rule("R5", "nothing below the window is accepted: every Ok(pn) of RcvdJournal::decode_pn is under `pn >= queue.offset()` — records "
                    "that have been rotated out must stay refused (TooOld), a vacant slot below the window is not 'never received'")
+    ctx.rule("R6", "a sent record's deadlines are not mixed up: at the construction of SentPktState::Flighting the value stored as "
+                   "retran_time derives from the retransmission timeout and the value stored as expire_time from the expiry timeout "
+                   "(same-typed positional arguments followed by def-use through SentPktState::new)")
     ctx.rule("R2", "at-most-once acceptance: decode_pn returns Ok only when the slot is vacant or Empty; on_rcvd_pn is "
                    "fed only PlainPacket::pn() of an authenticated packet")
     # ---------------------------------------------------------------- R1
@@ -218,3 +221,39 @@ def run(ctx):
                    "comparisons deciding the Ok return: %s — IndexDeque::get returns None both above and below the window, so without "
                    "this test a delayed duplicate (or replay) of a packet whose record has been rotated out is accepted, decrypted and "
                    "its frames dispatched a second time" % gs)
+
+    # ---------------------------------------------------------------- R6
+    nw = ctx.anchor("R6", "qrecovery::journal::sent::SentPktState::new")
+    if nw:
+        # which parameter of new() ends up in which field
+        field_of_param = {}
+        for (i, j, rv, line) in agg_sites(nw, r"journal::sent::SentPktState$", "Flighting"):
+            for fname, o in zip(rv[1].get("fields", []), rv[2]):
+                q = op_place(o)
+                if q is not None:
+                    for og in nw.trace_local(q[0]):
+                        if og[0] == "arg":
+                            field_of_param[og[1]] = fname
+        sites = prog.call_sites(r"journal::sent::SentPktState::new$")
+        ctx.floor("R6", "call sites of SentPktState::new", len(sites), 1)
+        for (cb, ci, ct) in sites:
+            ctx.touch(cb)
+            for k, a in enumerate(ct["args"]):
+                fname = field_of_param.get(k + 1)
+                if fname not in ("retran_time", "expire_time"):
+                    continue
+                want = fname.replace("_time", "_timeout")
+                names = set()
+                for pl in deep_places(cb, a, 6):
+                    n_ = cb.local_name(pl[0])
+                    if n_:
+                        names.add(n_)
+                    for og in cb.trace_local(pl[0]):
+                        if og[0] == "arg" and cb.local_name(og[1]):
+                            names.add(cb.local_name(og[1]))
+                other = ("expire_timeout" if want == "retran_timeout" else "retran_timeout")
+                ok = want in names and other not in names
+                ctx.ob("R6", "%s|%s is computed from %s" % (cb.short, fname, want), ok, cb.where(ct["line"]),
+                       "argument stored as %s derives from %s — swapped deadlines make a packet that was declared lost leave the journal "
+                       "after the (short) retransmission timeout: a late ACK for it then reports nothing to the frames' owners"
+                       % (fname, sorted(names)))
